@@ -232,7 +232,11 @@ def _events(args):
         back_a = np.stack(parts, axis=-1)
         ch = Q.split_quat_channels(c.copy())
         back_q = np.asarray(Q.stack_quat_channels(*ch))
-        for name, b in (("solver.components.dense", back), ("solver.components.sparse", back_s),
+        # input that is ALREADY in component form (a tuple / list of four planes) passes through the split unchanged
+        planes = tuple(np.ascontiguousarray(c[..., t]).copy() for t in range(4))
+        back_t = np.stack([np.asarray(x) for x in S_._quat_to_components(planes)], axis=-1)
+        back_l = np.stack([np.asarray(x) for x in S_._quat_to_components(list(planes))], axis=-1)
+        for name, b in (("solver.components.dense", back), ("solver.components.sparse", back_s), ("solver.components.tuple", back_t), ("solver.components.list", back_l),
                         ("A2A0123", back_a), ("qslst.split_stack", back_q)):
             if integral:
                 add({"op": "split", "fn": name, "A": ilist(c), "C": ilist(b) if b.shape == c.shape and np.array_equal(np.rint(b), b) else []})
